@@ -129,8 +129,10 @@ prop("C10", engine="inh", worker="make_inh_trace", prefixes=["C10."], level="mod
 prop("C11", engine="inh", worker="make_inh_trace", prefixes=["C11."], level="model_checking",
      mc=("MxInherit", "MC_MxInherit_quick.cfg", "MC_MxInherit_thorough.cfg"),
      mbt_opts={"deep": True, "checkdefs": True, "handles": True},
-     jobs=lambda tier: [("names", dict()), ("inherit", dict())],
-     quick=dict(traces=160, nops=25), thorough=dict(traces=4000, nops=40))
+     # (refused edits while ItemSpaces are alive and hold assigned values: the dyn world)
+     jobs=lambda tier: [("names", dict()), ("inherit", dict()), ("dyn", dict(_worker="make_dyn_trace"))],
+     quick=dict(traces=216, nops=25), thorough=dict(traces=5400, nops=40),
+     also=["C06.InputsPersist"])
 prop("C12", engine="inh", worker="make_inh_trace", prefixes=["C12."], level="model_checking",
      mc=("MxInherit", "MC_MxInherit_quick.cfg", "MC_MxInherit_thorough.cfg"),
      mbt_opts={"deep": True, "checkdefs": True, "handles": True},
